@@ -107,12 +107,52 @@ impl Outcome {
     }
 }
 
+/// A `tracing` subscriber that enables everything and formats every field of every span and
+/// event into a byte count: with it installed the search executes all of its logging code
+/// (Display of boards and moves, Debug of scores, the TRACE-only `eprintln!`s).
+pub struct Sink;
+pub static SINK_BYTES: std::sync::atomic::AtomicU64 = std::sync::atomic::AtomicU64::new(0);
+struct SinkVisit;
+impl tracing::field::Visit for SinkVisit {
+    fn record_debug(&mut self, field: &tracing::field::Field, value: &dyn std::fmt::Debug) {
+        let text = format!("{}={:?}", field.name(), value);
+        SINK_BYTES.fetch_add(text.len() as u64, std::sync::atomic::Ordering::Relaxed);
+    }
+}
+impl tracing::Subscriber for Sink {
+    fn enabled(&self, _: &tracing::Metadata<'_>) -> bool {
+        true
+    }
+    fn new_span(&self, attrs: &tracing::span::Attributes<'_>) -> tracing::span::Id {
+        attrs.record(&mut SinkVisit);
+        tracing::span::Id::from_u64(1)
+    }
+    fn record(&self, _: &tracing::span::Id, values: &tracing::span::Record<'_>) {
+        values.record(&mut SinkVisit);
+    }
+    fn record_follows_from(&self, _: &tracing::span::Id, _: &tracing::span::Id) {}
+    fn event(&self, event: &tracing::Event<'_>) {
+        event.record(&mut SinkVisit);
+    }
+    fn enter(&self, _: &tracing::span::Id) {}
+    fn exit(&self, _: &tracing::span::Id) {}
+}
+
+thread_local! {
+    /// when set, `run_search` runs the search with the `Sink` subscriber installed
+    pub static TRACED: Cell<bool> = const { Cell::new(false) };
+}
+
 pub fn run_search(board: &Board, tf: &ThreeFold, expire_at: u64, positional: bool) -> Outcome {
     let _ = verif::take_events();
     let t = CountingTimeout::new(expire_at);
     let mut engine = Engine::default();
     engine.positional = positional;
-    let r = catch_unwind(AssertUnwindSafe(|| engine.search(board, tf, &t)));
+    let r = if TRACED.with(|f| f.get()) {
+        catch_unwind(AssertUnwindSafe(|| tracing::subscriber::with_default(Sink, || engine.search(board, tf, &t))))
+    } else {
+        catch_unwind(AssertUnwindSafe(|| engine.search(board, tf, &t)))
+    };
     let events = verif::take_events();
     let mut runaway = false;
     let result = match r {
@@ -439,6 +479,16 @@ pub fn c11(c: &mut Collector, seed: u64, shard: u64, nshards: u64, thorough: boo
         for k in ks {
             judge_c11(c, ep, &board, &tf, with_tf, &legal, k, positional);
         }
+        // the same oracle with every log statement of the search executed (a TRACE-level subscriber
+        // that formats all fields): logging must not make the search panic or change what it owes
+        if pi % 6 == 0 {
+            TRACED.with(|f| f.set(true));
+            for k in [0u64, 3, 17, 60] {
+                c.count("traced-searches");
+                judge_c11(c, ep, &board, &tf, with_tf, &legal, k, positional);
+            }
+            TRACED.with(|f| f.set(false));
+        }
         // terminal positions / drawn-by-clock positions: many cheap passes; go far beyond 65536 polls
         if legal.is_empty() || ep.pos.half >= 99 {
             c.tag("long-run-on-trivial-passes");
@@ -452,6 +502,7 @@ pub fn c11(c: &mut Collector, seed: u64, shard: u64, nshards: u64, thorough: boo
             );
         }
     }
+    c.add("traced-log-bytes", SINK_BYTES.load(std::sync::atomic::Ordering::Relaxed));
     // fixed terminal and clock positions (S10a: depth counter on passes that cost one poll)
     if shard == 0 {
         for fen in [
